@@ -1,23 +1,25 @@
 #!/bin/bash
 # usage: adhoc_test.sh <pkg dir relative to /repo, e.g. core/util> <run pattern> <test file>...
-# Runs ad-hoc in-package test files against /repo through an overlay (nothing is written to /repo).
+# Runs ad-hoc in-package test files against /repo (or $REPO) through an overlay (nothing is written there).
+# $EXTRA: further go test flags (e.g. -coverprofile=...).
+REPO=${REPO:-/repo}
 export GOFLAGS=-mod=mod GOPROXY=off GOSUMDB=off GOTOOLCHAIN=local
 rel=$1; pat=$2; shift 2
 work=$(mktemp -d /tmp/adhoc.XXXXXX)
-cp /repo/go.mod $work/alt.mod; cp /repo/go.sum $work/alt.sum
+cp $REPO/go.mod $work/alt.mod; cp $REPO/go.sum $work/alt.sum
 echo "replace github.com/linxGnu/grocksdb => /verif/stubs/grocksdb" >> $work/alt.mod
-python3 - "$work" "$rel" "$@" <<'PY'
+python3 - "$work" "$rel" "$REPO" "$@" <<'PY'
 import sys,os,json
-work,rel=sys.argv[1],sys.argv[2]
+work,rel,repo=sys.argv[1],sys.argv[2],sys.argv[3]
 rep={}
-d=os.path.join('/repo',rel)
+d=os.path.join(repo,rel)
 for f in os.listdir(d):
     if f.endswith('_test.go'): rep[os.path.join(d,f)]=""
-for i,f in enumerate(sys.argv[3:]):
+for i,f in enumerate(sys.argv[4:]):
     rep[os.path.join(d,'zz_adhoc%d_test.go'%i)]=os.path.abspath(f)
 json.dump({"Replace":rep},open(os.path.join(work,'ov.json'),'w'))
 PY
-(cd /repo && go test -modfile=$work/alt.mod -overlay=$work/ov.json -vet=off -count=1 -v -timeout 300s -run "$pat" ./$rel $EXTRA)
+(cd $REPO && go test -modfile=$work/alt.mod -overlay=$work/ov.json -vet=off -count=1 -v -timeout 300s -run "$pat" ./$rel $EXTRA)
 rc=$?
 rm -rf $work
 exit $rc
